@@ -301,6 +301,13 @@ impl Scenario for Throttle {
                 v.push(json!({"bound": b, "high": hi, "low": lo, "stall": s, "grants": if tier == "thorough" { json!([1, 31, 33]) } else { json!([33]) }}));
             }
         }
+        // the connection is closed while the backlog is still buffered and the transport takes it in
+        // small grants: everything accepted before the close still goes out once, then the Close
+        // (high-water mark out of reach: a channel that is throttled when the connection is closed
+        // may have accepted messages the I/O thread never takes - the close goes through channel 0,
+        // which is always served; what C18 promises about a close in that state is not clear)
+        v.push(json!({"bound": 16, "high": 100000, "low": 0, "stall": 260, "grants": [33], "close_behind": true}));
+        v.push(json!({"bound": 1, "high": 100000, "low": 0, "stall": 330, "grants": [33], "close_behind": true}));
         // fine mode: publishers may refill their queues while the I/O thread is draining them
         v.push(json!({"bound": 1, "high": 64, "low": 0, "stall": 260, "grants": [33], "fine": true}));
         if tier == "thorough" {
@@ -321,7 +328,7 @@ impl Scenario for Throttle {
         }
     }
     fn describe(&self) -> String {
-        "two publisher threads (three publishes of 40-byte bodies each) plus the connection thread opening and closing a third channel, over a transport that stalls after 0 / 260 / 330 (thorough also 150 / 500) bytes and is re-opened in grants of 1, 31, 33 or all bytes; tunings (bound, high, low) in {(1,64,0),(2,64,32),(1,0,0),(16,128,0),(0,64,0)}. Oracle: at every poll gate the buffered output is at most high + channels*(bound+1)*largest frame + 64; nobody deadlocks; the wire carries every message exactly once in per-channel order".into()
+        "two publisher threads (three publishes of 40-byte bodies each) plus the connection thread opening and closing a third channel, over a transport that stalls after 0 / 260 / 330 (thorough also 150 / 500) bytes and is re-opened in grants of 1, 31, 33 or all bytes; tunings (bound, high, low) in {(1,64,0),(2,64,32),(1,0,0),(16,128,0),(0,64,0)}. Oracle: at every poll gate the buffered output is at most high + channels*(bound+1)*largest message + 64; nobody deadlocks; the wire carries every message exactly once in per-channel order".into()
     }
     fn build(&self, p: &Value) -> Built {
         let broker = StdBroker::new(Handshake::default());
@@ -330,6 +337,12 @@ impl Scenario for Throttle {
         cfg.grant_menu = p["grants"].as_array().unwrap().iter().map(|x| x.as_u64().unwrap() as usize).collect();
         cfg.fine = p["fine"] == true;
         if cfg.fine {
+            cfg.max_steps = 20000;
+        }
+        let close_behind = p["close_behind"] == true;
+        if close_behind {
+            // the peer trickles: 33 bytes at a time, to the end
+            cfg.no_grant_all = true;
             cfg.max_steps = 20000;
         }
         let tuning = ConnectionTuning::default()
@@ -362,6 +375,11 @@ impl Scenario for Throttle {
                             let r = ch.basic_publish("ex", Publish::new(&body, "k"));
                             ctx.log(format!("publish{} -> {}", i, res(&r)));
                         }
+                        if close_behind {
+                            ctx.forget(ch);
+                            ctx.log("chclose -> skipped -> Ok");
+                            return;
+                        }
                         let r = ch.close();
                         ctx.log(format!("chclose -> {}", res(&r)));
                     }));
@@ -387,9 +405,10 @@ impl Scenario for Throttle {
         let mut v = Vec::new();
         let bound = (p["bound"].as_u64().unwrap() as usize).max(1);
         let high = p["high"].as_u64().unwrap() as usize;
-        let limit = high + 3 * (bound + 1) * 48 + 64;
+        // (one queue entry is one whole message since fix 7cfc22c: method + header + body, 91 bytes here)
+        let limit = high + 3 * (bound + 1) * 96 + 64;
         if o.max_outbuf > limit {
-            v.push(("throttle:buffer-unbounded".into(), format!("buffered output reached {} bytes at a poll gate; bound for this tuning is {} (high {} + 3 channels x (bound {}+1) x 48 + 64)", o.max_outbuf, limit, high, bound)));
+            v.push(("throttle:buffer-unbounded".into(), format!("buffered output reached {} bytes at a poll gate; bound for this tuning is {} (high {} + 3 channels x (bound {}+1) x 96 + 64)", o.max_outbuf, limit, high, bound)));
         }
         // the throttle itself, read off the I/O thread's own log: after a poll gate with more
         // than `high` bytes buffered, nothing is taken from the queue of any channel but channel
@@ -426,7 +445,9 @@ impl Scenario for Throttle {
                 want.push("H".into());
                 want.push(format!("B{}x40", chan as u8 * 16 + i));
             }
-            want.push("M20.40".into());
+            if p["close_behind"] != true {
+                want.push("M20.40".into());
+            }
             let got: Vec<String> = envs
                 .iter()
                 .filter(|e| e.chan == chan)
@@ -526,8 +547,19 @@ impl Scenario for Tuned {
         // the server keeps talking so that it is never declared dead
         let hbf = frame_bytes(&amq_protocol::frame::AMQPFrame::Heartbeat(0));
         if hb > 0 && p["silent"] != true {
-            for i in 1..=8u64 {
-                broker.timed.push_back((i * hb * 500 * MS, hbf.clone()));
+            // ... one byte at a time (every 0.45 of the announced interval): a whole frame takes
+            // 3.6 intervals, every byte counts as a sign of life. The frame in progress is finished
+            // just before the client's close so that the reply does not land inside it.
+            let end = 3 * hb * 1000 + 150;
+            let mut n = 0usize;
+            let mut i = 1u64;
+            while i * hb * 450 < end - 50 {
+                broker.timed.push_back((i * hb * 450 * MS, vec![hbf[n % 8]]));
+                n += 1;
+                i += 1;
+            }
+            if n % 8 != 0 {
+                broker.timed.push_back((end * MS, (n % 8..8).map(|k| hbf[k]).collect()));
             }
         }
         let mut cfg = EnvConfig::default();
